@@ -297,6 +297,9 @@ ASM1_COMMON = ("janet_asm1 on a description whose %s arbitrary (lists of up to 2
 M_VERIFY_IGNORED = M("verdict-ignored", "    if (verify_status) {\n        janet_asm_errorv", "    if (0) {\n        janet_asm_errorv", "only after janet_verify accepted")
 M_NO_VERIFY = M("verify-skipped", "    int verify_status = janet_verify(def);", "    int verify_status = 0;", "only after janet_verify accepted")
 M_LEAK_TABLES = M("tables-not-released-on-success", "    /* Finish everything and return funcdef */\n    janet_asm_deinit(&a);", "    /* Finish everything and return funcdef */", "released exactly once")
+M_SLOTCOUNT_ORDER = M("slotcount-before-vararg", "    /* Check vararg */\n    x = janet_get1(s, janet_ckeywordv(\"vararg\"));\n    if (janet_truthy(x)) def->flags |= JANET_FUNCDEF_FLAG_VARARG;\n\n    /* Initialize slotcount */\n    def->slotcount = !!(def->flags & JANET_FUNCDEF_FLAG_VARARG) + def->arity;",
+                      "    def->slotcount = !!(def->flags & JANET_FUNCDEF_FLAG_VARARG) + def->arity;\n    x = janet_get1(s, janet_ckeywordv(\"vararg\"));\n    if (janet_truthy(x)) def->flags |= JANET_FUNCDEF_FLAG_VARARG;", "slotcount covers the parameters")
+M_STRUCTARG_AS_VARARG = M("structarg-sets-vararg", "    if (janet_truthy(x)) def->flags |= JANET_FUNCDEF_FLAG_STRUCTARG;", "    if (janet_truthy(x)) def->flags |= JANET_FUNCDEF_FLAG_VARARG;", "flags are set exactly")
 M_HANDLER_DEF = M("error-result-keeps-definition", "        result.funcdef = NULL;\n        result.error = a.errmessage;", "        result.funcdef = def;\n        result.error = a.errmessage;", "carries no definition")
 M_HANDLER_LEAK = M("tables-not-released-before-propagating", "        if (NULL != a.parent) {\n            janet_asm_deinit(&a);", "        if (NULL != a.parent) {", "released before an error is passed")
 
@@ -342,7 +345,9 @@ struct_unit("asm.asm1.source-type", ["SOURCE_TYPE"], "top-level value is ANYTHIN
 struct_unit("asm.asm1.header", ["HEADER"], ":name :arity :min-arity :max-arity :vararg :structarg :source are",
             [M_VERIFY_IGNORED, M_NO_VERIFY], failing=FIND_ARITY_OVF)
 struct_unit("asm.asm1.header.below-max", ["HEADER"], ":name :arity :min-arity :max-arity :vararg :structarg :source are",
-            [M_VERIFY_IGNORED, M_NO_VERIFY, M_LEAK_TABLES], extra_def=["-DAS_ARITY_BELOW_MAX"], bound_extra="; :arity other than 2147483647 (that value: disabled unit asm.asm1.header)")
+            [M_VERIFY_IGNORED, M_NO_VERIFY, M_LEAK_TABLES, M_SLOTCOUNT_ORDER, M_STRUCTARG_AS_VARARG], extra_def=["-DAS_ARITY_BELOW_MAX"], bound_extra="; :arity other than 2147483647 (that value: disabled unit asm.asm1.header)",
+            extra={"tier": "quick", "props": ["C10", "C09"],
+                   "clause": ASM1_COMMON % ":name :arity :min-arity :max-arity :vararg :structarg :source are" + " C09 (asm . disasm): the definition handed to janet_verify has arity/min-arity/max-arity as described (defaults: 0 / arity / arity), the vararg and structarg flags exactly when the keys are truthy, and a slotcount covering arity + the rest parameter"})
 struct_unit("asm.asm1.slots", ["SLOTS"], ":slots (names and tuples of names) is",
             [M("slot-alias-non-symbol-accepted", "                    if (!janet_checktype(t[j], JANET_SYMBOL))\n                        janet_asm_error(&a, \"slot names must be symbols\");", "", "slot names are symbols"),
              M("slot-alias-loop-one-past", "                for (j = 0; j < janet_tuple_length(t); j++) {", "                for (j = 0; j <= janet_tuple_length(t); j++) {", "pointer|bounds|unwinding")])
